@@ -18,7 +18,7 @@ func Sinh(d Number) Number {
 		return Number{
 			Real:    d.Real,
 			E1mag:   d.E1mag,
-			E2mag:   d.E1mag,
+			E2mag:   d.E2mag,
 			E1E2mag: d.Real,
 		}
 	}
